@@ -497,10 +497,10 @@ def w_history(ctx, rng, i):
                 elif op == 6 and not dry:
                     ppg.get_data(int(rng.integers(1, 1025)), int(rng.integers(1, 3000)), sel)
                 elif op == 7:
-                    ppg(freq=value_near(rng, *LIMITS["freq"]), patt_len=value_near(rng, *LIMITS["leng"], integer=True), Vout=value_near(rng, *LIMITS["amp"]), offset=value_near(rng, *LIMITS["offs"]),
+                    (ppg if rng.integers(2) else ppg.config)(freq=value_near(rng, *LIMITS["freq"]), patt_len=value_near(rng, *LIMITS["leng"], integer=True), Vout=value_near(rng, *LIMITS["amp"]), offset=value_near(rng, *LIMITS["offs"]),
                         bsh=int(rng.integers(0, 9)), skew=value_near(rng, *LIMITS["skew"]), mode="DATA", data=rng.integers(0, 2, int(rng.integers(1, 1500))), CHs=sel)
                 elif op == 8:
-                    ppg.config(freq=value_near(rng, *LIMITS["freq"]), mode="PRBS", order=int(rng.choice(ORDERS + [8, 12, 33])), CHs=sel)
+                    (ppg if rng.integers(2) else ppg.config)(freq=value_near(rng, *LIMITS["freq"]), mode="PRBS", order=int(rng.choice(ORDERS + [8, 12, 33])), CHs=sel)
                 else:
                     ppg.set_prbs_order(int(rng.choice(ORDERS + [1, 64])), sel)
                 ops.append(op)
@@ -565,6 +565,11 @@ def w_sync(ctx, rng, i):
             ctx.raises("sync.errors", TypeError, L.SYNC, rx.tolist(), slots, sps)
     ctx.case(("sync", order, sps, dsel, variant, form), sample=dict(order=order, sps=sps, pattern_samples=l, d=d, sigma=sigma, index=None if out is None else int(idx)) if i < 6 else None)
     ctx.bin("sync.delay_class", ["0", "1", "l-1", "sps", "l/2", "random"][dsel])
+
+
+def FORM_TWINS():
+    import opticomlib.lab as lab
+    return [(lab, ["SYNC"])]
 
 
 WORKLOADS = [
